@@ -451,6 +451,10 @@ def run(ctx: Ctx, rep: Report, tier: str):
     from rules.common import wait_joins_unless_own_thread
     rep.rule("C18.L15", "wait() really waits (C15.R5): exact join condition", 1)
     section(rep, lambda: wait_joins_unless_own_thread(ctx, rep, "C18.L15"))
+    from rules.common import notifications_go_through_the_queue
+    rep.rule("C18.L16", "ordered notifications: the engine never calls the application's notification handler itself - every notification goes through the "
+             "NotificationManager's queue and is delivered by its loop", 1)
+    section(rep, lambda: notifications_go_through_the_queue(ctx, rep, "C18.L16"))
     from rules.decisions import decision_table, table_sites
     rep.rule("C18.DT", "decision table (rules/decisions.json) of the runnable service loop, notification delivery and the start / stop / wait entry points: for every function and every action shape (an impure call with the parameters it passes, a store to an "
              "attribute or item, a delete, a returned constant, a yield, a raise) the set of states - over the function's guard atoms - in which the action is taken "
